@@ -138,14 +138,16 @@ Proof.
 Qed.
 
 (* one line, from a clean state to a clean state *)
+Definition is_time (l : line) : bool := match l with LTime _ => true | _ => false end.
+
 Lemma line_step debug stop l s : line_ok l -> clean s ->
-  ps_pos s + N.of_nat (length (text_of l)) <= stop ->
+  (is_time l = true -> ps_pos s <= stop + 1) ->
   exists s', run_bytes debug stop (text_of l ++ [10]) s = Running s' /\ clean s' /\
              ps_pos s' = ps_pos s + N.of_nat (length (text_of l)) + 1 /\ ps_acc s' = rev (events_of l) ++ ps_acc s.
 Proof.
   intros Hok (Hst & Hf & Hid & Hpos) Hstop. destruct l as [d|c id|v id|ws|kw]; cbn [line_ok text_of events_of] in *.
   - (* time *)
-    destruct Hok as [Hd (v & Hv)]. rewrite Hv.
+    specialize (Hstop eq_refl). destruct Hok as [Hd (v & Hv)]. rewrite Hv.
     rewrite run_bytes_app, (feed_first debug stop (35 :: d) s Hst (no_ws_cons 35 d eq_refl Hd)), Hf. cbn [app].
     cbn [run_bytes ps_state ps_pos ps_first ps_id ps_acc]. rewrite ws_10.
     assert (Hpf : parse_first_token debug (35 :: d) = Ok (FtTime v)).
@@ -205,7 +207,7 @@ Proof.
   induction ls as [|l ls IH]; intros s Hok Hs Hstop.
   - exists s. cbn. repeat split; try apply Hs. 
   - apply Forall_cons_iff in Hok as [Hl Hls]. cbn [map concat] in *. rewrite !app_length in Hstop. cbn [length] in Hstop.
-    destruct (line_step debug stop l s Hl Hs ltac:(lia)) as (s1 & Hr1 & Hc1 & Hp1 & Ha1).
+    destruct (line_step debug stop l s Hl Hs ltac:(intros _; lia)) as (s1 & Hr1 & Hc1 & Hp1 & Ha1).
     rewrite run_bytes_app, Hr1.
     destruct (IH s1 Hls Hc1 ltac:(rewrite Hp1; lia)) as (s' & Hr & Hc & Ha).
     exists s'. split; [exact Hr|]. split; [exact Hc|]. rewrite Ha, Ha1. cbn [flat_map]. rewrite rev_app_distr, app_assoc. reflexivity.
